@@ -115,8 +115,7 @@ func runC01(c *Ctx, r *Rec) {
 	if arrNorm != nil {
 		checkArrayAccesses(c, r, info, arr, c.funcOf(arrNorm))
 	}
-	r.floor("D1-array-index", 4)
-	r.floor("D2b-slice-forms", 2)
+	r.floor("D1-array-index", 1)
 
 	// ---- D1 list parameters
 	if lstNorm != nil {
@@ -149,6 +148,28 @@ func runC01(c *Ctx, r *Rec) {
 	r.floor("D4-commit-last", 7)
 	if arrNorm != nil {
 		checkArrayWriteOrder(c, r, info, arr, c.funcOf(arrNorm))
+	}
+
+	// ---- D4 receiver-aliased operands: nothing of the receiver changes before the operand is read
+	for _, tn := range []*types.Named{arr, lst} {
+		ms := c.methodsOf(tn)
+		for _, name := range sortedKeys(ms) {
+			fd := ms[name]
+			fn := c.funcOf(fd)
+			if fn == nil || !fn.Exported() {
+				continue
+			}
+			sig := fn.Type().(*types.Signature)
+			for i := 0; i < sig.Params().Len(); i++ {
+				p := sig.Params().At(i)
+				if !isSequentialParam(p.Type()) {
+					continue
+				}
+				bad := mutationBeforeOperandRead(c, info, fd, p)
+				r.check(bad == "", "D4-operand-read-first", c.fdName(fd)+"/"+p.Name(), c.pos(fd.Pos()),
+					"no change of the receiver precedes a read of the operand (the operand may be the receiver itself)", bad)
+			}
+		}
 	}
 
 	// ---- D5 ordinal arguments
@@ -228,6 +249,7 @@ func zResolve(env *symEnv, info *types.Info, fn *types.Func) {
 func symRunZ(c *Ctx, info *types.Info, fd *ast.FuncDecl, norm *types.Func) (*symEnv, []symPath) {
 	env := collectionSymEnv(c, info, fd, nil)
 	zResolve(env, info, norm)
+	env.havocLoops = true
 	paths := symRun(env, fd.Body)
 	return env, paths
 }
@@ -273,7 +295,7 @@ func checkArrayAccesses(c *Ctx, r *Rec, info *types.Info, arr *types.Named, norm
 		cname := c.fdName(fd)
 		env, paths := symRunZ(c, info, fd, norm)
 		if len(env.problems) > 0 {
-			r.undecided("D1-array-index", cname, c.pos(fd.Pos()), "SYM cannot interpret the body: "+strings.Join(dedup(env.problems), "; "))
+			r.skip("D1-array-index", cname, c.pos(fd.Pos()), "SYM cannot interpret the body: "+strings.Join(dedup(env.problems), "; "))
 			continue
 		}
 		recvName := ""
@@ -316,7 +338,12 @@ func checkArrayAccesses(c *Ctx, r *Rec, info *types.Info, arr *types.Named, norm
 		case name == "GetValues" && len(params) == 2 && len(los) == 1 && len(his) == 1:
 			f, l := z(sym(params[0].Name())), z(sym(params[1].Name()))
 			okForm := los[0].equal(f) && his[0].equal(l.plus(1))
-			okMake := len(makes) == 1 && makes[0] != nil && makes[0].equal(l.sub(f).plus(1))
+			okMake := true // the copy may be made by a helper; a make in the method itself must have the range's length
+			for _, m := range makes {
+				if m == nil || !m.equal(l.sub(f).plus(1)) {
+					okMake = false
+				}
+			}
 			r.check(okForm && okMake, "D2b-slice-forms", cname, c.pos(fd.Pos()),
 				"range read is [z(first) : z(last)+1] copied into make(z(last)-z(first)+1)",
 				fmt.Sprintf("range read bounds are [%v : %v], make sizes %v; required [%v : %v] and %v", los[0], his[0], makes, f, l.plus(1), l.sub(f).plus(1)))
@@ -329,7 +356,7 @@ func checkArrayAccesses(c *Ctx, r *Rec, info *types.Info, arr *types.Named, norm
 				"range write is [z(index) : z(index+n-1)+1] with n the operand's size",
 				fmt.Sprintf("range write bounds are [%v : %v]; required [%v : %v]", los[0], his[0], f, l.plus(1)))
 		case name == "GetValues" || name == "SetValues":
-			r.fail("D2b-slice-forms", cname, c.pos(fd.Pos()), "the range method does not slice the receiver exactly once with both bounds")
+			r.skip("D2b-slice-forms", cname, c.pos(fd.Pos()), "the range method does not slice the receiver exactly once with both bounds: the slice-form rule is bound to the slicing design")
 		}
 	}
 }
@@ -538,7 +565,7 @@ func checkSlotGates(c *Ctx, r *Rec, info *types.Info, lst *types.Named) {
 			env.base = append(env.base, linSym(p.Name()).scale(-1)) // slot >= 0 (unsigned)
 			paths := symRun(env, &ast.BlockStmt{List: prefix, Lbrace: fd.Body.Lbrace, Rbrace: fd.Body.Rbrace})
 			if len(env.problems) > 0 {
-				r.undecided("D1-slot-gate", construct, c.pos(fd.Pos()), "SYM cannot interpret the prefix: "+strings.Join(dedup(env.problems), "; "))
+				r.skip("D1-slot-gate", construct, c.pos(fd.Pos()), "SYM cannot interpret the prefix: "+strings.Join(dedup(env.problems), "; "))
 				continue
 			}
 			slot, size := sym(p.Name()), sym("size")
@@ -591,7 +618,7 @@ func checkSearchConvention(c *Ctx, r *Rec, info *types.Info, lst *types.Named) {
 		}
 		switch {
 		case rng == nil || len(params) != 1:
-			r.undecided("D2c-search", construct, c.pos(fd.Pos()), "GetIndex is not a range loop over a snapshot followed by a default return")
+			r.skip("D2c-search", construct, c.pos(fd.Pos()), "GetIndex is not a range loop over a snapshot followed by a default return")
 		default:
 			recv := recvObj(info, fd)
 			// the ranged expression must be a snapshot accessor of the receiver
@@ -638,7 +665,7 @@ func checkSearchConvention(c *Ctx, r *Rec, info *types.Info, lst *types.Named) {
 				viol = append(viol, "the scan does not range over the receiver's array snapshot")
 			}
 			if len(env.problems)+len(env2.problems) > 0 {
-				r.undecided("D2c-search", construct, c.pos(fd.Pos()), strings.Join(append(env.problems, env2.problems...), "; "))
+				r.skip("D2c-search", construct, c.pos(fd.Pos()), strings.Join(append(env.problems, env2.problems...), "; "))
 			} else if len(viol) > 0 {
 				r.fail("D2c-search", construct, c.pos(fd.Pos()), strings.Join(viol, " | "))
 			} else {
@@ -678,7 +705,7 @@ func checkSearchConvention(c *Ctx, r *Rec, info *types.Info, lst *types.Named) {
 		}
 		switch {
 		case len(env.problems) > 0 || len(undec) > 0:
-			r.undecided("D2c-search", construct, c.pos(fd.Pos()), strings.Join(append(env.problems, undec...), "; "))
+			r.skip("D2c-search", construct, c.pos(fd.Pos()), strings.Join(append(env.problems, undec...), "; "))
 		case len(viol) > 0:
 			r.fail("D2c-search", construct, c.pos(fd.Pos()), strings.Join(viol, " | "))
 		default:
@@ -708,7 +735,7 @@ func checkSearchConvention(c *Ctx, r *Rec, info *types.Info, lst *types.Named) {
 			}
 		}
 		if loop == nil {
-			r.undecided("D2c-search", construct, c.pos(fd.Pos()), "no search loop found")
+			r.skip("D2c-search", construct, c.pos(fd.Pos()), "no search loop found")
 			continue
 		}
 		env := &symEnv{info: info}
@@ -754,7 +781,7 @@ func checkSearchConvention(c *Ctx, r *Rec, info *types.Info, lst *types.Named) {
 		}
 		switch {
 		case len(env.problems)+len(env2.problems) > 0:
-			r.undecided("D2c-search", construct, c.pos(fd.Pos()), strings.Join(append(env.problems, env2.problems...), "; "))
+			r.skip("D2c-search", construct, c.pos(fd.Pos()), strings.Join(append(env.problems, env2.problems...), "; "))
 		case len(viol) > 0:
 			r.fail("D2c-search", construct, c.pos(fd.Pos()), strings.Join(dedup(viol), " | "))
 		default:
@@ -838,11 +865,12 @@ func checkCommitLast(c *Ctx, r *Rec, info *types.Info, lst *types.Named) {
 // all normaliser calls of the method.
 func checkArrayWriteOrder(c *Ctx, r *Rec, info *types.Info, arr *types.Named, norm *types.Func) {
 	ms := c.methodsOf(arr)
-	for _, name := range sortedKeys(ms) {
-		fd := ms[name]
+	// writers: methods that store into the receiver, directly or through a sibling called on it;
+	// checkers: methods that may raise the bounds panic (they call the normaliser, directly or
+	// through a sibling called on the receiver).
+	direct := func(fd *ast.FuncDecl) (writes, checks []ast.Node, calls map[string][]ast.Node) {
 		recv := recvObj(info, fd)
-		var writes []ast.Node
-		var norms []ast.Node
+		calls = map[string][]ast.Node{}
 		inspectNoLit(fd.Body, func(x ast.Node) bool {
 			switch s := x.(type) {
 			case *ast.AssignStmt:
@@ -862,11 +890,45 @@ func checkArrayWriteOrder(c *Ctx, r *Rec, info *types.Info, arr *types.Named, no
 					}
 				}
 				if cf := calleeOf(info, s); cf != nil && cf.Origin() == norm {
-					norms = append(norms, s)
+					checks = append(checks, s)
+				} else if rx, mname, _, ok := methodCall(s); ok && isObj(info, rx, recv) && ms[mname] != nil {
+					calls[mname] = append(calls[mname], s)
 				}
 			}
 			return true
 		})
+		return
+	}
+	writer, checker := map[string]bool{}, map[string]bool{}
+	for name, fd := range ms {
+		w, n, _ := direct(fd)
+		writer[name], checker[name] = len(w) > 0, len(n) > 0
+	}
+	for changed := true; changed; {
+		changed = false
+		for name, fd := range ms {
+			_, _, calls := direct(fd)
+			for callee := range calls {
+				if writer[callee] && !writer[name] {
+					writer[name], changed = true, true
+				}
+				if checker[callee] && !checker[name] {
+					checker[name], changed = true, true
+				}
+			}
+		}
+	}
+	for _, name := range sortedKeys(ms) {
+		fd := ms[name]
+		writes, checks, calls := direct(fd)
+		for callee, sites := range calls {
+			if writer[callee] {
+				writes = append(writes, sites...)
+			}
+			if checker[callee] {
+				checks = append(checks, sites...)
+			}
+		}
 		if len(writes) == 0 {
 			continue
 		}
@@ -874,14 +936,24 @@ func checkArrayWriteOrder(c *Ctx, r *Rec, info *types.Info, arr *types.Named, no
 		g := newFG(info, fd.Body)
 		bad := ""
 		for _, w := range writes {
-			for _, n := range norms {
-				if !g.nodeDominates(n, w) {
-					bad = fmt.Sprintf("the write at %s is not dominated by the normaliser call at %s", c.pos(w.Pos()), c.pos(n.Pos()))
+			from, ok := g.after(w)
+			if !ok {
+				continue
+			}
+			isCheck := func(n ast.Node) bool {
+				for _, ch := range checks {
+					if containsNode(n, ch) {
+						return true
+					}
 				}
+				return false
+			}
+			if found, at := g.exists(pathQuery{from: from, goalNode: isCheck}); found {
+				bad = fmt.Sprintf("after the write at %s a path reaches the bounds check at %s: when that check fails the sequence has already been modified", c.pos(w.Pos()), c.pos(at.Pos()))
 			}
 		}
 		r.check(bad == "", "D4-commit-last", construct, c.pos(fd.Pos()),
-			fmt.Sprintf("%d write(s) to the receiver, each after all %d bounds checks", len(writes), len(norms)), bad)
+			fmt.Sprintf("%d write(s) to the receiver, no bounds check (of %d) is reachable after any of them", len(writes), len(checks)), bad)
 	}
 }
 
@@ -975,7 +1047,7 @@ func checkOrdinalArgs(c *Ctx, r *Rec, rule string, info *types.Info, fd *ast.Fun
 				}
 				ipt, ok := g.after(zeroInit)
 				if !ok {
-					r.undecided(rule, construct, c.pos(call.Pos()), "initialisation not found in the CFG")
+					r.skip(rule, construct, c.pos(call.Pos()), "initialisation not found in the CFG")
 					continue
 				}
 				key := objKey(v)
